@@ -219,6 +219,10 @@ theorem filter_loop (t : Str) (l : List Str) (body : PVal → List PVal → PyM 
   rw [filter_loop_acc t l body hb []]
   rfl
 
+/-- `if new_classes:` / `if not new_classes:` (the truthiness spelling of `len(new_classes) > 0`) -/
+theorem truthy_list_strs (l : List Str) : truthy (.list (l.map PVal.str)) = !l.isEmpty := by
+  cases l <;> rfl
+
 theorem len_gt_zero (l : List Str) : pyGt (.int ((l.map PVal.str).length : Nat)) (.int 0) = .ok (.bool (!l.isEmpty)) := by
   cases l with
   | nil => rfl
